@@ -73,7 +73,11 @@ Definition exec_set (d : db) (now : Z) (args : list bytes) : reply * db :=
         if o_nx o then ((if o_get o then getr else RNil), d)
         else let d' := set_apply_ttl (db_set d k (VStr v)) now k o in
              ((if o_get o then getr else rOK), d')
-      | Some _ => (err_wrongtype, d)
+      | Some _ =>
+        (* a value of another type is overwritten like any other; only GET needs a string *)
+        if o_get o then (err_wrongtype, d)
+        else if o_nx o then (RNil, d)
+        else (rOK, set_apply_ttl (db_set d k (VStr v)) now k o)
       | None =>
         if o_xx o then (RNil, d)
         else let d' := set_apply_ttl (db_set d k (VStr v)) now k o in
@@ -127,11 +131,13 @@ Definition exec_setrange (d : db) (args : list bytes) : reply * db :=
     match atoi64 off with
     | None => (err_other, d)
     | Some offset =>
-      if (offset <? 0) || (offset + zlength v >? max_string_len) then (err_other, d) else
+      if offset <? 0 then (err_other, d) else
       match (match db_get d k with None => Some [] | Some (VStr b) => Some b | Some _ => None end) with
       | None => (err_wrongtype, d)
       | Some old =>
         let len := zlength old in
+        if zlength v =? 0 then (RInt len, d) else      (* nothing to write: no change, no key created *)
+        if offset + zlength v >? max_string_len then (err_other, d) else
         let new :=
           if offset >? len then old ++ zeros (Z.to_nat (offset - len)) ++ v
           else firstn (Z.to_nat offset) old ++ v ++ skipn (Z.to_nat (offset + zlength v)) old in
@@ -218,12 +224,134 @@ Definition exec_decrby (d : db) (args : list bytes) : reply * db :=
                  | None => (err_other, d) end
   | _ => (err_other, d) end.
 
+(* ---------- INCRBYFLOAT ----------
+   Go: strconv.ParseFloat / float64 addition / strconv.FormatFloat(x, 'f', -1, 64).
+   Modelled exactly on the decimals  m * 10^-e  that are dyadic (5^e | m, so a float64 holds them
+   exactly) and have at most 15 significant digits (so parsing is exact, the float64 sum of two
+   such numbers is exact whenever the exact sum is again of that form, and the shortest decimal
+   that identifies the float64 is the exact decimal).  Outside that domain ([FOut]: exponent
+   notation, hex floats, "1_0", ".5", "-0", non-dyadic or long decimals) binary rounding is not
+   modelled: the model follows the observed reply (acceptor form), the step is counted by the
+   runner as out of domain.  [FInvalid]: the empty string or a byte that occurs in no Go float
+   literal -- ParseFloat fails for certain. *)
+Fixpoint split_dot (s : bytes) : bytes * option bytes :=
+  match s with
+  | [] => ([], None)
+  | c :: r => if beqb c "."%byte then ([], Some r)
+              else let '(a, b) := split_dot r in (c :: a, b)
+  end.
+
+(* sign?  digits+  ( "." digits+ )?   ->  (negative?, |m|, e) *)
+Definition parse_dec (s : bytes) : option (bool * N * N) :=
+  let '(neg, body) := match s with
+                      | "-"%byte :: r => (true, r)
+                      | "+"%byte :: r => (false, r)
+                      | _ => (false, s) end in
+  let '(ip, fp) := split_dot body in
+  match parse_udec ip, fp with
+  | Some i, None => Some (neg, i, 0%N)
+  | Some i, Some f =>
+    match parse_udec f with
+    | Some fv => let e := N.of_nat (List.length f) in Some (neg, (i * 10 ^ e + fv)%N, e)
+    | None => None end
+  | None, _ => None
+  end.
+
+(* strip trailing decimal zeros: m*10^-e with 10 not dividing m unless e = 0 *)
+Fixpoint dec_norm (fuel : nat) (m : Z) (e : N) : Z * N :=
+  match fuel with
+  | O => (m, e)
+  | S f => if (e =? 0)%N then (m, e)
+           else if m mod 10 =? 0 then dec_norm f (m / 10) (e - 1)%N else (m, e)
+  end.
+Definition dec_normalize (m : Z) (e : N) : Z * N := dec_norm (N.to_nat e) m e.
+
+Definition dec_in_domain (m : Z) (e : N) : bool :=
+  (Z.abs m <? 10 ^ 15) && (m mod 5 ^ Z.of_N e =? 0).
+
+Definition float_byte (c : byte) : bool :=
+  existsb (beqb c) (B "0123456789+-._eEpPxXaAbBcCdDfFiInNtTyY").
+
+Inductive fclass := FIn (m : Z) (e : N) | FInvalid | FOut.
+
+Definition classify_float (s : bytes) : fclass :=
+  match parse_dec s with
+  | Some (neg, a, e) =>
+    let '(m, e') := dec_normalize (Z.of_N a) e in
+    if neg && (m =? 0) then FOut                                   (* negative zero *)
+    else if dec_in_domain m e' then FIn (if neg then - m else m) e' else FOut
+  | None =>
+    match s with
+    | [] => FInvalid
+    | _ => if forallb float_byte s then FOut else FInvalid
+    end
+  end.
+
+Definition dec_add (m1 : Z) (e1 : N) (m2 : Z) (e2 : N) : Z * N :=
+  let e := N.max e1 e2 in
+  dec_normalize (m1 * 10 ^ Z.of_N (e - e1) + m2 * 10 ^ Z.of_N (e - e2)) e.
+
+(* FormatFloat(x, 'f', -1, 64) of a normalized decimal *)
+Definition fmt_dec (m : Z) (e : N) : bytes :=
+  let digits := n_to_dec (Z.to_N (Z.abs m)) in
+  let en := N.to_nat e in
+  let digits := if Nat.leb (List.length digits) en then repeat "0"%byte (S en - List.length digits) ++ digits else digits in
+  let ip := firstn (List.length digits - en) digits in
+  let fp := skipn (List.length digits - en) digits in
+  (if m <? 0 then ["-"%byte] else []) ++ ip ++ (match fp with [] => [] | _ => "."%byte :: fp end).
+
+(* out of the modelled domain: accept what the implementation answered *)
+Definition follow_hint (d : db) (k : bytes) (hint : reply) : reply * db :=
+  match hint with
+  | RBulk s => (RBulk s, db_set d k (VStr s))
+  | _ => (err_other, d)
+  end.
+
+Fixpoint starts_with (p s : bytes) : bool :=
+  match p, s with
+  | [], _ => true
+  | a :: p', b :: s' => beqb a b && starts_with p' s'
+  | _ :: _, [] => false
+  end.
+
+Definition exec_incrbyfloat (d : db) (args : list bytes) (hint : reply) : reply * db :=
+  match args with
+  | [_; k; inc] =>
+    match classify_float inc with
+    | FInvalid => (err_other, d)
+    | FOut =>
+      match db_get d k, hint with
+      | Some (VStr _), _ | None, _ => follow_hint d k hint
+      | Some _, RErr e =>                       (* WRONGTYPE, or the increment did not parse *)
+        ((if starts_with (B "WRONGTYPE") e then err_wrongtype else err_other), d)
+      | Some _, _ => (err_wrongtype, d)
+      end
+    | FIn mi ei =>
+      match db_get d k with
+      | None => (RBulk (fmt_dec mi ei), db_set d k (VStr (fmt_dec mi ei)))
+      | Some (VStr b) =>
+        match classify_float b with
+        | FInvalid => (err_other, d)
+        | FOut => follow_hint d k hint
+        | FIn mv ev =>
+          let '(m, e) := dec_add mv ev mi ei in
+          if dec_in_domain m e then (RBulk (fmt_dec m e), db_set d k (VStr (fmt_dec m e)))
+          else follow_hint d k hint
+        end
+      | Some _ => (err_wrongtype, d)
+      end
+    end
+  | _ => (err_other, d)
+  end.
+
 Definition exec_append (d : db) (args : list bytes) : reply * db :=
   match args with
   | [_; k; v] =>
     match db_get d k with
     | None => (RInt (zlength v), db_set d k (VStr v))
-    | Some (VStr b) => (RInt (zlength (b ++ v)), db_set d k (VStr (b ++ v)))
+    | Some (VStr b) =>
+      if zlength v >? max_string_len - zlength b then (err_other, d)
+      else (RInt (zlength (b ++ v)), db_set d k (VStr (b ++ v)))
     | Some _ => (err_wrongtype, d) end
   | _ => (err_other, d)
   end.
